@@ -456,7 +456,9 @@ class Engine(Executor):
         saved_ctx = self.index_ctx
         self.index_ctx = list(saved_ctx) + [seg.ivar]  # symbols created in the body are per iteration
         try:
-            for s0 in self.assign_target(base, stmt.target, elem):
+            # the loop variable is bound to a copy of the generic element: a write to it affects this element only
+            elem_i = self.subst(base, elem, seg.ivar, seg.ivar)
+            for s0 in self.assign_target(base, stmt.target, elem_i):
                 if isinstance(s0, tuple):
                     raise Unsupported("loop target assignment may fail")
                 results.extend(self.exec_block(stmt.body, s0))
@@ -502,9 +504,20 @@ class Engine(Executor):
             else:
                 o.lt = o.lt.cat(added)
         out: List[Tuple[State, Ctl]] = []
+        carried = [n for n in assigned if n not in _names(stmt.target)]
+        normal_guard = z3.Or(*[g for g, _ in finals]) if finals else z3.BoolVal(False)
+        jv = self.fresh_const("earlier", z3.IntSort())
+
+        def earlier_completed(upto):
+            """iterations before `upto` completed normally (their guards do not depend on loop-carried locals)"""
+            return z3.ForAll([jv], z3.Implies(z3.And(jv >= 0, jv < upto), z3.substitute(normal_guard, (seg.ivar, jv))))
         # exits from inside the loop (existential index): the state keeps ivar as a Skolem constant
         for s, ctl in exits:
+            if not carried:
+                s.assume(earlier_completed(seg.ivar))
             out.append((s, ctl))
+        if not carried and exits:
+            st.assume(earlier_completed(seg.n))
         # normal termination: n == 0 -> locals keep their pre-loop value; n > 0 -> value at the end of iteration n-1
         for s, zero in self.branch(st, seg.n <= 0):
             if zero:
